@@ -170,6 +170,22 @@ func reentryExpr(path string) string {
 	return `(function(){var d=0,F=(` + path + `);return function(a,b,c){ if(d++>3) return d; var r; try{ r=F.call(this,c,b,a) }catch(e){ r=e } try{ if(c&&typeof c==="object"){ c.length=0; delete c[0] } }catch(e){} try{ F.apply(a,[this,F]) }catch(e){} d--; return r }})()`
 }
 
+// devSkip: development aid (C02_DEV_SKIP="1,2,5-9"): sub-calls left out when bisecting a batch history.
+var devSkip = func() map[int]bool {
+	m := map[int]bool{}
+	for _, f := range strings.Split(os.Getenv("C02_DEV_SKIP"), ",") {
+		var a, b int
+		if n, _ := fmt.Sscanf(f, "%d-%d", &a, &b); n == 2 {
+			for i := a; i <= b; i++ {
+				m[i] = true
+			}
+		} else if n, _ := fmt.Sscanf(f, "%d", &a); n == 1 {
+			m[a] = true
+		}
+	}
+	return m
+}()
+
 func runBuiltin(c builtinCase, jr *journal) (res jobResult) {
 	ks := kindList()
 	var recv []int
@@ -207,6 +223,9 @@ func runBuiltin(c builtinCase, jr *journal) (res jobResult) {
 				if c.Only >= 0 && sub != c.Only {
 					continue
 				}
+				if devSkip[sub] {
+					continue
+				}
 				if w == 4 && ri != 0 {
 					continue // Object.Call uses the owner as receiver: once per group is enough
 				}
@@ -220,8 +239,12 @@ func runBuiltin(c builtinCase, jr *journal) (res jobResult) {
 					continue
 				}
 				jr.mark(sub)
-				if c.Only >= 0 {
+				isolated := exportsIntoBridgedContainer(c.Fn, ks[r], ap, ks, w)
+				if c.Only >= 0 || isolated {
 					fresh()
+				}
+				if isolated {
+					res.Classes = append(res.Classes, "history-reset-for-C02-EXPORT-CYCLE")
 				}
 				harness.Arm(vm, 20000)
 				where := fmt.Sprintf("#%d %s: (%s) this=%s(%s) args=[%s]", sub, ways[w], c.Fn.Path, ks[r].Name, ks[r].Expr, strings.Join(argExprs, ", "))
@@ -438,6 +461,7 @@ func checkBuiltin(c builtinCase) harness.Outcome {
 		harness.Count(callsFacet, r.NT, c.Fn.Path+"|"+r.Recv+"|"+r.Args+"|"+r.Way, cls...)
 	}
 	out.Classes = append(out.Classes, "group:"+fmt.Sprint(c.Group))
+	out.Classes = append(out.Classes, res.Classes...)
 	if c.Fn.Accessor != "" {
 		out.Classes = append(out.Classes, "accessor-function")
 	}
